@@ -82,8 +82,11 @@ def run(chk):
     sel = rng.sample(cf, 40 if quick else min(len(cf), 450))
     sr = filecheck.strict_read(sel)
     skipped = 0
-    for f, r in zip(sel, sr):
-        if r["ok"]:
+    # a corpus file is an input with ground truth only if qpdf itself reads it cleanly (qpdf --check exit 0): files that
+    # qpdf repairs (exit 3) legitimately change, files it rejects are not "PDF that qpdf accepts"
+    clean = common.par_map(lambda f: common.run_qpdf(["--check", f])[0] == 0, sel)
+    for f, r, ok in zip(sel, sr, clean):
+        if r["ok"] and ok:
             sd = filecheck.StrictDoc(r, f)
             if b"Encrypt" in sd.trailer:
                 skipped += 1
@@ -108,7 +111,8 @@ def run(chk):
     for i, (rc, se, out) in enumerate(res):
         inp, cfg = jobs[i]
         if rc not in (0, 3):
-            if inp[2] == "generated" or rc != 2 or b"password" not in se:
+            if inp[2] == "generated" or rc != 2 or not (b"password" in se or b"no pages found" in se):
+                # (a corpus file without any page is not a valid document: --linearize documents its refusal)
                 chk.violation({"kind": "property-fails-on-implementation", "why": "a readable input was refused in a content-preserving mode",
                                "input": inp[1], "argv": ["qpdf", "--static-id"] + cfg, "exit": rc, "stderr": se.decode("latin-1")[-300:]},
                               signature="refused:%s" % inp[0])
@@ -133,6 +137,12 @@ def run(chk):
             A2 = dociso.push_down(A, Atr)
             B2 = dociso.push_down(B, Btr)
         skipB = dociso.page_content_streams(B2, Btr) if any(c in cfg for c in CONTENT_REWRITING) else ()
+        if "--coalesce-contents" in cfg:
+            # a page's /Contents array becomes one stream (C16 judges the token sequence): compare pages without /Contents
+            def strip(objs):
+                return {k: ({kk: vv for kk, vv in v.items() if kk != b"Contents"} if isinstance(v, dict) and v.get(b"Type") == Name(b"Page") else v)
+                        for k, v in objs.items()}
+            A2, B2 = strip(A2), strip(B2)
         encrypted = b"Encrypt" in Btr
         try:
             a2b = dociso.iso(A2, Atr, B2, Btr, skip_content_of_B=skipB, strings_opaque=encrypted)
